@@ -191,10 +191,11 @@ fn plan_c02(thorough: bool) -> Plan {
         cases.extend(enum_commit_histories(2, 14, 2, &a, &mk_case("empty", vec!["U2"], &c, "root", true)));
     }
     cases.extend(crate::plans2::tombstone_family("root", thorough));
+    cases.extend(crate::schedx::worker_schedule_cases(thorough));
     sort_by_bound(&mut cases);
     let mut p = Plan::new(
         cases,
-        "histx: every history of D commits with at most B key actions {insert, delete, overwrite} over (i) a 14-key family diverging at bits {0,1,5,6,7,11,12,13,17,18,127,254,255} and (ii) clusters of 18..22 keys below one depth-2 and one depth-3 merkle page (page-elision threshold from both sides), for 1..64 commit workers, and (iii) the tombstone family (16/32-bucket tables × 16 bitbox seeds, 10 pages, every page / adjacent pair of pages removed, cold reopen, re-insert, reopen); FinishedSession::root, Nomt::root after each commit and after a final reopen are compared with an independent from-scratch recursive trie over the model's key-value set. Non-trivial = at least one write committed.",
+        "histx: every history of D commits with at most B key actions {insert, delete, overwrite} over (i) a 14-key family diverging at bits {0,1,5,6,7,11,12,13,17,18,127,254,255} and (ii) clusters of 18..22 keys below one depth-2 and one depth-3 merkle page (page-elision threshold from both sides), for 1..64 commit workers, and (iii) the tombstone family (16/32-bucket tables × 16 bitbox seeds, 10 pages, every page / adjacent pair of pages removed, cold reopen, re-insert, reopen), and (iv) every schedule with ≤2 (thorough: all) preemptions of the three merkle update workers of one commit (worker start, publishing of child-page roots, hand-back of the write pass, root-page phase) under the controlled scheduler; FinishedSession::root, Nomt::root after each commit and after a final reopen are compared with an independent from-scratch recursive trie over the model's key-value set. Non-trivial = at least one write committed.",
     );
     p.budget_s = if thorough { 1500 } else { 40 };
     p.assumptions = vec!["collision resistance of the hasher (equal roots ⇔ equal tries)".into()];
